@@ -178,6 +178,25 @@ def r_edit(prog, tier):
                         sites.append(n)
         if not sites:
             raise Unrecognised('%s: no effect inside the loop over requested indices' % f.fq)
+        # leaving the loop drops every remaining request: only justified once the (ascending) positions are beyond the end
+        for n in cfg.eval_nodes():
+            if n.kind == 'stmt' and isinstance(n.ast, (ast.Break, ast.Return)) and n.loops and n.loops[0] == loops[0].id \
+                    and (isinstance(n.ast, ast.Return) or n.loops[-1] == loops[0].id):
+                facts = [x[0] for x in facts_at(cfg, n.id) if loops[0].id in cfg.nodes[x[1]].loops]
+                beyond = False
+                for fa in facts:
+                    if fa[0] == 'cmp' and fa[2] in ('<', '<=') and any(fa[1] == L or fa[1].startswith(L + ' +') for L in lens) \
+                            and fa[3] == X:
+                        beyond = True       # len < X
+                about = [fa for fa in facts if any(isinstance(t_, str) and X in t_.replace('(', ' ').replace(')', ' ')
+                                                   .replace('[', ' ').replace(']', ' ').replace(',', ' ').split() for t_ in fa[1:])]
+                verdict = True if beyond else (False if about and all(fa[0] in ('cmp', 'in') for fa in about) else None)
+                obs.append(Ob('R-EDIT/RANGE', f.fq, 'the loop over the requested positions is left early only beyond the end of '
+                              'the sentence', verdict,
+                              'left under `sentence length < %s`: the remaining (larger) positions cannot fit either' % X if beyond else
+                              '`%s` under %s: a position below 1 (they come first in ascending order) cancels every valid '
+                              'request after it' % (unparse(n.ast), [fa for fa in about][:2]),
+                              construct='range-leave:' + unparse(n.ast)[:30], line=n.lineno))
         for n in sites:
             facts = [x[0] for x in facts_at(cfg, n.id) if loops[0].id in cfg.nodes[x[1]].loops]
             lower, upper = _bounds(facts, X, lens, lo, hi_plus)
@@ -185,7 +204,8 @@ def r_edit(prog, tier):
             if ok is None:
                 about = [fa for fa in facts if any(isinstance(t_, str) and X in t_.replace('(', ' ').replace(')', ' ')
                                                    .replace('[', ' ').replace(']', ' ').replace(',', ' ').split() for t_ in fa[1:])]
-                understood = all(fa[0] == 'cmp' or (fa[0] == 'in' and fa[2].startswith('range(')) for fa in about)
+                understood = all(fa[0] == 'cmp' or (fa[0] == 'in' and fa[2].startswith('range(')) for fa in about) \
+                    and not any(':=' in t_ for fa in about for t_ in fa[1:] if isinstance(t_, str))
                 if understood and not prog.opaque_calls(f, [X], before=n.id):
                     ok = False          # every condition on the position is a plain comparison, and they do not bound it
             obs.append(Ob('R-EDIT/RANGE', f.fq, 'effect `%s` happens only for a position inside the sentence (%d..n%s)'
@@ -406,6 +426,24 @@ def r_labeledit(prog, tier):
             ok = False if bad_skip else None
     obs.append(Ob('R-LABELEDIT', f.fq, 'index stripping reaches every constituent', ok, why, construct='ptb-every',
                   line=f.node.lineno))
+    # ... in every sentence: no normal return comes before the constituent loop
+    good = [lp for lp in loops if any(n.kind == 'stmt' and lp.id in n.loops and isinstance(n.ast, ast.Assign)
+                                      and unparse(n.ast.targets[0]).endswith(".data['label']") for n in cfg.eval_nodes())]
+    if good:
+        heads = frozenset(lp.id for lp in good)
+        rets = [p_ for p_ in cfg.pred[cfg.exit] if cfg.nodes[p_].kind == 'stmt' and isinstance(cfg.nodes[p_].ast, ast.Return)]
+        reach = cfg.reach(cfg.entry, avoid=heads)
+        early = [p_ for p_ in rets if p_ in reach]
+        v2, w2 = True, 'every return lies behind the loop over all nodes'
+        if early:
+            helpers = [c for c in _helper_calls(prog, f) if c.lineno <= cfg.nodes[early[0]].lineno
+                       and prog.callee(c, f) not in (('trees', 'delete_terminal'), ('trees', 'parse_label'), ('trees', 'format_label'))]
+            conds = [unparse(a.ast)[:50] for a in cfg.assumes_at(early[0])]
+            v2 = None if helpers else False
+            w2 = '`%s` (line %d, under %s) leaves before the loop that strips the indices of the constituents: a sentence ' \
+                 'taking this path keeps its co-indices and gap indices' % (unparse(cfg.nodes[early[0]].ast), cfg.nodes[early[0]].lineno, conds)
+        obs.append(Ob('R-LABELEDIT', f.fq, 'index stripping happens in every sentence', v2, w2, construct='ptb-always',
+                      line=f.node.lineno))
     return obs, {}
 
 
@@ -546,6 +584,14 @@ def r_labelsplit(prog, tier):
             facts = [x[0] for x in facts_at(cfg, n.id)]
             ok = True if (('cmp', 'len(%s)' % L, '==', '0') in facts or ('truthy', L, False) in facts) else None
             why = 'empty category replaced by the default literal' if ok else 'guard of the default label not recognised'
+            if ok:
+                later = [m for m in rebinds if m.id != n.id and m.id in cfg.reach(n.id)
+                         and isinstance(m.ast.value, ast.Subscript) and unparse(m.ast.value.value) == L]
+                if later:
+                    ok = False
+                    why = 'the default for an empty category is applied before `%s` (line %d) strips a component: a label that ' \
+                          'consists only of a head marker / index / function is left with an empty category' % (
+                              unparse(later[0].ast), later[0].lineno)
         obs.append(Ob('R-LABELSPLIT', f.fq, 'rebinding `%s` removes exactly one recorded component' % unparse(n.ast), ok, why,
                       construct='split:' + unparse(n.ast), line=n.lineno))
     # indices must be digits; the search for co-index / gap index uses the formatting separators
